@@ -119,13 +119,24 @@ func buildWorlds(verifDir, repoDir string, race, fine bool, mutate func(ovDir st
 			return env, err
 		}
 	}
+	// a private go.mod whose replace directive points at the tree under test (VERIF_REPO may be a snapshot)
+	modfile := filepath.Join(scratch, "go.mod")
+	if b, err := os.ReadFile(filepath.Join(verifDir, "go.mod")); err == nil {
+		txt := strings.Replace(string(b), "replace github.com/hedzr/logg => /repo", "replace github.com/hedzr/logg => "+repoDir, 1)
+		_ = os.WriteFile(modfile, []byte(txt), 0o644)
+		if s, err := os.ReadFile(filepath.Join(verifDir, "go.sum")); err == nil {
+			_ = os.WriteFile(filepath.Join(scratch, "go.sum"), s, 0o644)
+		}
+	} else {
+		return env, fmt.Errorf("go.mod: %w", err)
+	}
 	build := func(out string, extra ...string) error {
 		ov := rep.OverlayFile
 		if len(extra) > 0 && extra[0] == "FINE" {
 			ov = fineRep.OverlayFile
 			extra = extra[1:]
 		}
-		args := []string{"build", "-tags", "verif", "-overlay", ov}
+		args := []string{"build", "-modfile", modfile, "-tags", "verif", "-overlay", ov}
 		args = append(args, extra...)
 		args = append(args, "-o", out, "./cmd/simworld")
 		cmd := exec.Command("go", args...)
